@@ -1,11 +1,15 @@
 CONSTANTS
   MaxCmds = 3
-  MaxPending = 3
-  MaxNum = 2
+  MaxPending = 2
+  MaxNum = 1
   MaxItems = 1
-  Kinds = {"SELECT", "IDLE", "CLOSE", "UNAUTH", "LOGIN", "NOOP", "EXPUNGE", "FETCH"}
+  MaxUid = 1
+  MaxCode = 1
+  NFlagSets = 1
+  Kinds = {"SELECT", "IDLE", "NOOP", "EXPUNGE"}
   Greetings = {"PREAUTH"}
   SimDepth = 0
+  Count = FALSE
 INIT GenInit
 NEXT GenNext
 VIEW GenView
